@@ -268,9 +268,10 @@ def dictSet {β} (k : String) (v : β) : List (String × β) → List (String ×
   | [] => [(k, v)]
   | (k', v') :: r => if k' = k then (k, v) :: r else (k', v') :: dictSet k v r
 
+/-- `del d[k]` (keys of a dict are unique; every entry with that key goes). -/
 def dictDel {β} (k : String) : List (String × β) → List (String × β)
   | [] => []
-  | (k', v') :: r => if k' = k then r else (k', v') :: dictDel k r
+  | (k', v') :: r => if k' = k then dictDel k r else (k', v') :: dictDel k r
 
 /-- AdvancedTag.className: `str(self.classList)` -/
 def Elem.className (e : Elem) : Str := joinWith [' '] e.classNames
@@ -284,16 +285,18 @@ def Elem.dictContains (e : Elem) (key : String) : Bool :=
   let k := lowerS key
   if k = "class" then !e.classNames.isEmpty else (e.attrs.lookup k).isSome
 
+/-- `dict.__getitem__` with the `except KeyError: None` of the callers: the text, `None` when absent or value-less. -/
+def entryVal : Option (Option Str) → PyV
+  | some (some v) => .str v
+  | _ => .none
+
 /-- SpecialAttributesDict.__getitem__ -/
 def Elem.dictGetItem (T : Tables) (e : Elem) (key : String) : PyV :=
   let k := lowerS key
   if k = "style" then .opaque "style"
   else if k = "class" then .str e.className
-  else if T.boolStrings.contains k then
-    .str (convertToBooleanString (match e.attrs.lookup k with | some (some v) => .str v | _ => .none))
-  else match e.attrs.lookup k with
-    | some (some v) => .str v
-    | _ => .none
+  else if T.boolStrings.contains k then .str (convertToBooleanString (entryVal (e.attrs.lookup k)))
+  else entryVal (e.attrs.lookup k)
 
 /-- `key in self.keys()` after `_handleClassAttr` (the style key is never present here: the style is empty). -/
 def Elem.inKeys (e : Elem) (k : String) : Bool :=
